@@ -100,6 +100,7 @@ type c39run struct {
 	second    int // >0: a second client dials the same server and makes that many calls
 	accepted  int
 	aClosing  simrt.Event // set when Close is invoked on A
+	earlyShutdown int     // >0: with a second client, the server is shut down after that many yields (racing with its Dial)
 	eagerBind int         // 1: A's Binder spawns a goroutine that calls at once; 2: and one that closes
 }
 
@@ -251,6 +252,9 @@ func (c39) NewRun(plan *simrt.Source, job *harn.Job) harn.Run {
 				case 4:
 					o.Kind = "yield"
 					o.N = 1 + plan.Draw(20)
+					if ep == 1 && plan.Chance(250) {
+						o.Kind = "shutdown" // the server stops accepting while clients may still be dialling
+					}
 				case 5:
 					o.Kind = "call"
 				}
@@ -282,6 +286,9 @@ func (c39) NewRun(plan *simrt.Source, job *harn.Job) harn.Run {
 	}
 	if plan.Chance(250) {
 		r.second = 1 + plan.Draw(3)
+		if plan.Chance(400) {
+			r.earlyShutdown = 1 + plan.Draw(3+r.second*4+6)
+		}
 	}
 	r.viaFakenet = plan.Chance(200)
 	if plan.Chance(150) {
@@ -315,7 +322,7 @@ func (c39) NewRun(plan *simrt.Source, job *harn.Job) harn.Run {
 		r.net.Desc += fmt.Sprintf(" + A's Binder uses the connection from spawned goroutines during set-up (%d)", r.eagerBind)
 	}
 	if r.second > 0 {
-		r.net.Desc += fmt.Sprintf(" + second client making %d calls on its own connection to the same server", r.second)
+		r.net.Desc += fmt.Sprintf(" + second client making %d calls on its own connection to the same server (server shut down after %d yields)", r.second, r.earlyShutdown)
 	}
 	r.work = append(r.work, r.net.Desc)
 	h := uint64(14695981039346656037)
@@ -411,6 +418,9 @@ func (l *listener) Dialer() jsonrpc2.Dialer { return l }
 
 func (l *listener) Dial(ctx context.Context) (io.ReadWriteCloser, error) {
 	simrt.Yield("listener.Dial")
+	if l.closed {
+		return nil, errors.New("simnet: connection refused (listener closed)")
+	}
 	i := l.next
 	a, b := simnet.Pipe(l.r.eps[i].name, l.r.eps[i+1].name, l.r.net.Cap)
 	if i == 0 {
@@ -861,6 +871,17 @@ func (r *c39run) Body(s *simrt.Sim) {
 	if r.second > 0 {
 		r.tasksAll++
 		simrt.Go("C.task", r.secondClient)
+		if r.earlyShutdown > 0 {
+			r.tasksAll++
+			simrt.Go("shutdowner", func() {
+				for k := 0; k < r.earlyShutdown; k++ {
+					simrt.Yield("shutdowner-delay")
+				}
+				r.server.Shutdown()
+				r.sim.Fault("server-shutdown-mid-run")
+				r.tasksDone++
+			})
+		}
 	}
 	for i, t := range r.tasks {
 		i, t := i, t
@@ -879,6 +900,11 @@ func (r *c39run) Body(s *simrt.Sim) {
 				case "wait":
 					// Wait only returns once somebody closes; the settle phase does.
 					r.doWait(ep)
+				case "shutdown":
+					if r.server != nil {
+						r.server.Shutdown()
+						r.sim.Fault("server-shutdown-mid-run")
+					}
 				case "yield":
 					for k := 0; k < o.N; k++ {
 						simrt.Yield("task-yield")
@@ -907,7 +933,9 @@ func (r *c39run) secondClient() {
 	c := r.eps[2]
 	r.lis.next = 2
 	if _, err := jsonrpc2Dial(r.lis.Dialer(), c); err != nil {
-		r.fail("harness", "second Dial failed: "+err.Error(), "Dial")
+		// the server was shut down before this client dialled
+		r.sim.Probe("second-dial-refused")
+		r.tasksDone++
 		return
 	}
 	r.sim.Probe("second-connection")
